@@ -52,7 +52,7 @@ var atoms = []ref.RuleAtom{
 	{Name: "precision"}, {Name: "minLength"}, {Name: "maxLength"}, {Name: "maxLength", Variant: "disordered"}, {Name: "regex"}, {Name: "regex", Variant: "escaped"},
 	{Name: "minItems"}, {Name: "maxItems"}, {Name: "maxItems", Variant: "disordered"},
 	{Name: "additionalProperties"}, {Name: "allOf"}, {Name: "allOf", Variant: "empty-parent"}, {Name: "enum"}, {Name: "or"}, {Name: "or", Variant: "disordered-set"}, {Name: "or", Variant: "ordered-set"}, {Name: "or", Variant: "format-with-length-set"}, {Name: "or", Variant: "ref-nullable-set"}, {Name: "or", Variant: "ref-optional-set"},
-	{Name: "or", Variant: "exclusive-empty-set"}, {Name: "or", Variant: "exclusive-ok-set"}, {Name: "or", Variant: "foreign-kind-set"}, {Name: "or", Variant: "foreign-rule-same-kind-set"}, {Name: "or", Variant: "huge-length-set"}, {Name: "or", Variant: "with-any"}, {Name: "or", Variant: "inert-only-set"}, {Name: "or", Variant: "inert-false-in-set"},
+	{Name: "or", Variant: "exclusive-empty-set"}, {Name: "or", Variant: "exclusive-ok-set"}, {Name: "or", Variant: "foreign-kind-set"}, {Name: "or", Variant: "foreign-rule-same-kind-set"}, {Name: "or", Variant: "huge-length-set"}, {Name: "or", Variant: "with-any"}, {Name: "or", Variant: "foreign-rule-same-kind-admitted-set"}, {Name: "or", Variant: "inert-only-set"}, {Name: "or", Variant: "inert-false-in-set"},
 	{Name: "minLength", Variant: "huge"}, {Name: "minItems", Variant: "huge"}, {Name: "precision", Variant: "huge"},
 	{Name: "type", Variant: "kind"}, {Name: "type", Variant: "any"}, {Name: "type", Variant: "ref"}, {Name: "type", Variant: "decimal"}, {Name: "type", Variant: "date"}, {Name: "type", Variant: "mixed"}, {Name: "type", Variant: "mixed-again"},
 	{Name: "type", Variant: "enum"}, {Name: "type", Variant: "enum-escaped"}, {Name: "type", Variant: "kind-escaped"},
@@ -235,6 +235,12 @@ func build(c Case) (*ref.SNode, []ref.RuleAtom, bool) {
 					bad = []ref.SRule{gen.TokRule("minItems", "0"), gen.StrRule("type", kn)}
 				}
 				r.Or = []ref.OrItem{{Rules: bad}, {Name: other}}
+			case "foreign-rule-same-kind-admitted-set": // the same, and another alternative admits the example: the rule set is wrong all the same
+				bad := []ref.SRule{gen.StrRule("type", kn), gen.TokRule("minLength", "1")}
+				if c.Kind == ref.NKString {
+					bad = []ref.SRule{gen.TokRule("minItems", "0"), gen.StrRule("type", kn)}
+				}
+				r.Or = []ref.OrItem{{Rules: bad}, {Name: kn}}
 			case "huge-length-set": // 2^64 as a length bound: above every maxLength
 				r.Or = []ref.OrItem{{Rules: []ref.SRule{gen.StrRule("type", "string"), gen.TokRule("minLength", "18446744073709551616"), gen.TokRule("maxLength", "5")}}, {Rules: []ref.SRule{gen.StrRule("type", kn)}}}
 			case "with-any": // the bare name "any" next to a kind the example is not of
